@@ -5,6 +5,10 @@
   Item level (lists of `ItemSig`): the acceptance characterisation of `compare_trait_items` /
   `compare_inherent_items` on clean lists (`cleanItems`: no unsupported item, no duplicate (kind, name)),
   and the diagnostic of every single-defect mutation of an accepted input.
+  A block may name an item several times (the same item under complementary `cfg` attributes): the code enters
+  the items into look-up tables in which a repeated name overwrites (`itemMap`, `Validate.lean`); the section
+  "Repeated item names" states what that means. On blocks without repeated names nothing differs
+  (`C14_no_repeats_table_is_block`).
   Family level: the first failing check determines the diagnostic; header checks come before item checks.
 
   Definitions used in the statements (`Lemmas/ValidateLemmas.lean`, all executable or decidable):
@@ -25,11 +29,12 @@ theorem C14_trait_items_ok_iff (ts second : List ItemSig) (hts : cleanItems ts =
       (∀ t ∈ ts, ∀ s ∈ second, t.kind = .const → s.kind = .const → s.ident = t.ident → t.arity = s.arity) :=
   compareTraitItems_ok_iff ts second hts hs
 
-/-- omitting an item that has a trait default is allowed -/
+/-- omitting an item that has a trait default is allowed (the hypothesis `cleanItems second` is kept in the statement for
+    the callers; it is no longer used: `C14_default_may_be_omitted_any` is the statement without it) -/
 theorem C14_default_may_be_omitted (ts second : List ItemSig) (t : ItemSig) (hts : cleanItems ts = true)
-    (hs : cleanItems second = true) (hok : compareTraitItems ts second = .ok ()) (ht : t ∈ ts)
+    (_hs : cleanItems second = true) (hok : compareTraitItems ts second = .ok ()) (ht : t ∈ ts)
     (hd : t.hasDefault = true) : compareTraitItems ts (dropItem t.kind t.ident second) = .ok () :=
-  compareTraitItems_default_omitted ts second t hts hs hok ht hd
+  compareTraitItems_default_omitted ts second t hts hok ht hd
 
 /-- removing the item a required trait item asks for: "Missing in one of the impls" -/
 theorem C14_missing_item (ts second : List ItemSig) (t : ItemSig) (hts : cleanItems ts = true)
@@ -247,6 +252,53 @@ theorem C14_all_ok_iff (trait_ : Option T) (fams : List (List T)) :
     validateAll trait_ fams = .ok () ↔ ∀ fam ∈ fams, validateFamily trait_ fam = .ok () := by
   rw [validateAll_eq]; exact firstError_map_ok_iff
 
+/-! ## Repeated item names (one item under complementary `cfg` attributes) -/
+
+/-- a block without repeated (kind, name) pairs is its own look-up table: on such blocks the answers of
+    `compareTraitItems` / `compareInherentItems` are those of the plain loops over the block -/
+theorem C14_no_repeats_table_is_block (xs : List ItemSig) (h : (xs.map ItemSig.key).Nodup) :
+    itemMap xs = xs ∧ (∀ ts, compareTraitItems ts xs = compareTraitItemsLoop ts xs) ∧
+    (∀ fs, compareInherentItems fs xs = compareInherentItemsLoop fs xs) :=
+  ⟨itemMap_of_nodup h, fun ts => compareTraitItems_of_nodup ts h, fun fs => compareInherentItems_of_nodup fs h⟩
+
+/-- the look-up table of ANY block: no (kind, name) twice, exactly the names of the block, an unsupported item in the
+    table iff one in the block -/
+theorem C14_table (xs : List ItemSig) :
+    ((itemMap xs).map ItemSig.key).Nodup ∧
+    (∀ k x, (∃ s ∈ itemMap xs, s.kind = k ∧ s.ident = x) ↔ (∃ s ∈ xs, s.kind = k ∧ s.ident = x)) ∧
+    (itemMap xs).any (fun i => i.kind = .other) = xs.any (fun i => i.kind = .other) :=
+  ⟨itemMap_nodup xs, fun k x => itemMap_exists_iff (fun k' x' => k' = k ∧ x' = x) xs, itemMap_any_other xs⟩
+
+/-- the look-up table of the model is the table the code builds: every item of the block entered from the left with
+    `IndexMap::insert` (`insertItem`: an existing key keeps its position and gets the new value, a new key is appended) -/
+theorem C14_table_is_insert_loop (xs : List ItemSig) : itemMap xs = xs.foldl insertItem [] :=
+  itemMap_eq_foldl_insert xs
+
+/-- acceptance WITHOUT a condition on the block (repeated names, unsupported items allowed): the characterisation of
+    `C14_trait_items_ok_iff` read on the look-up table, i.e. on the last copy of every name. Side condition: the
+    trait's own item list is clean. -/
+theorem C14_trait_items_ok_iff_any (ts second : List ItemSig) (hts : cleanItems ts = true) :
+    compareTraitItems ts second = .ok () ↔
+      (∀ t ∈ ts, t.hasDefault = false → ∃ s ∈ itemMap second, s.kind = t.kind ∧ s.ident = t.ident) ∧
+      (∀ s ∈ itemMap second, ∃ t ∈ ts, t.kind = s.kind ∧ t.ident = s.ident) ∧
+      (∀ t ∈ ts, ∀ s ∈ itemMap second, t.kind = .const → s.kind = .const → s.ident = t.ident → t.arity = s.arity) :=
+  compareTraitItems_ok_iff_map ts second hts
+
+/-- the same in inherent mode: the FIRST block is a slice (side condition: it is clean — a first block that repeats a name
+    is rejected, see the examples), the other block may repeat names -/
+theorem C14_inherent_items_ok_iff_any (fs second : List ItemSig) (hf : cleanItems fs = true) :
+    compareInherentItems fs second = .ok () ↔
+      (∀ f ∈ fs, ∃ s ∈ itemMap second, s.kind = f.kind ∧ s.ident = f.ident) ∧
+      (∀ s ∈ itemMap second, ∃ f ∈ fs, f.kind = s.kind ∧ f.ident = s.ident) ∧
+      (∀ f ∈ fs, ∀ s ∈ itemMap second, f.kind = .const → s.kind = .const → s.ident = f.ident → f.arity = s.arity) :=
+  compareInherentItems_ok_iff_map fs second hf
+
+/-- omitting every copy of an item that has a trait default keeps the block accepted; no condition on the block -/
+theorem C14_default_may_be_omitted_any (ts second : List ItemSig) (t : ItemSig) (hts : cleanItems ts = true)
+    (hok : compareTraitItems ts second = .ok ()) (ht : t ∈ ts)
+    (hd : t.hasDefault = true) : compareTraitItems ts (dropItem t.kind t.ident second) = .ok () :=
+  compareTraitItems_default_omitted ts second t hts hok ht hd
+
 /-! ## Non-vacuity -/
 
 section Examples
@@ -271,10 +323,19 @@ example : compareInherentItems [cN 0, tA] [tA, cN 0] = .ok () ∧
 /-- `C14_missing_item` / `C14_default_may_be_omitted` are about `dropItem` -/
 example : dropItem .const "N" [tA, cN 0] = [tA] ∧ dropItem .fn "f" [fD, tA, cN 0] = [tA, cN 0] := by decide
 
-/-- the clean-list hypothesis of the characterisation is needed: with a duplicate in the impl the second copy
-    is left over -/
-example : cleanItems [tA, tA] = false ∧ compareTraitItems [tA] [tA, tA] = .error .notInTrait ∧
-    (∀ s ∈ [tA, tA], ∃ t ∈ [tA], t.kind = s.kind ∧ t.ident = s.ident) := by decide
+/-- a name given twice in a block is ONE entry of the look-up table (the real validator accepts
+    `#[cfg(any())] type A = u8; #[cfg(not(any()))] type A = u16;`); the TRAIT's items are a slice: a name declared twice
+    there is asked for twice and found once -/
+example : cleanItems [tA, tA] = false ∧ compareTraitItems [tA] [tA, tA] = .ok () ∧ itemMap [tA, tA] = [tA] ∧
+    compareTraitItems [tA, tA] [tA] = .error .missing ∧ compareTraitItems [tA, tA] [tA, tA] = .error .missing := by decide
+
+/-- the clean-list hypothesis of the characterisation `C14_trait_items_ok_iff` is needed: with a repeated const the LAST
+    copy's number of generic parameters counts (`IndexMap::insert` overwrites the value), the clause about the arities
+    speaks about every copy -/
+example : cleanItems [cN 1, cN 0] = false ∧ compareTraitItems [cN 0] [cN 1, cN 0] = .ok () ∧
+    compareTraitItems [cN 0] [cN 0, cN 1] = .error .noMatch ∧
+    ¬ (∀ t ∈ [cN 0], ∀ s ∈ [cN 1, cN 0], t.kind = .const → s.kind = .const → s.ident = t.ident → t.arity = s.arity) ∧
+    itemMap [cN 1, tA, cN 0] = [cN 0, tA] := by decide
 
 /-- header order: the second impl's header is checked before the first impl's items -/
 example :
@@ -292,6 +353,48 @@ example :
     validateTraitImpls tr [badItems] = .error .missing ∧
     validateTraitImpls tr [badItems, inherent] = .error .expectedTraitImpl ∧
     validateAll (some tr) [[], [badItems, inherent], [badItems]] = .error .expectedTraitImpl := by decide
+/-- the duplicate-under-`cfg` block on real trees. Trait `trait Kita { fn f() -> u8; }`; block
+    `impl Kita for S { #[cfg(any())] fn f() -> u8 { 0 } #[cfg(not(any()))] fn f() -> u8 { 1 } }` (validation sees the kind and
+    the name of an item only, so both copies are the same `ItemSig`).
+    Trait mode: ACCEPTED (no diagnostic), alone and next to a block with one `f`.
+    Inherent mode (the same items in `impl S { … }`): a FIRST block that names `f` twice asks for `f` twice and the other
+    block's table holds it once: "Not found in one of the impls" — also when the other block is the same block; a LATER
+    block that names `f` twice is accepted against a first block with one `f`; a family of one block is not compared. -/
+example :
+    let fnSig (x : String) : T := .node "Signature" [] [.node "None" [] [], .node "None" [] [], .node "None" [] [],
+      .node "None" [] [], .node "Ident" [x] [], .node "G" [] [], .node "List" [] [], .node "None" [] [], .node "R" [] []]
+    let tr : T := .node "ItemTrait" [] [.node "L" [] [], .node "V" [] [], .node "None" [] [], .node "None" [] [],
+      .node "None" [] [], .node "Ident" ["Kita"] [], .node "G" [] [], .node "None" [] [], .node "List" [] [],
+      .node "List" [] [.node "TraitItem::Fn" [] [.node "A" [] [], fnSig "f", .node "None" [] [], .node "Some" ["Semi"] []]]]
+    let fnItem (cfg : String) : T := .node "ImplItem::Fn" [] [.node "Ign" [] [.node "List" [] [.node cfg [] []]],
+      .node "Visibility::Inherited" [] [], .node "None" [] [], fnSig "f", .node "Block" [] []]
+    let kitaRef : T := .node "Some" [] [.node "Tuple" [] [.node "None" [] [], .node "Path" [] [.node "IgnL" [] [.node "None" [] []],
+        .node "List" [] [.node "PathSegment" [] [.node "Ident" ["Kita"] [], .node "PathArguments::None" [] []]]]]]
+    let block (tref : T) (items : List T) : T := .node "ItemImpl" [] [.node "A" [] [], .node "None" [] [], .node "None" [] [],
+      .node "G" [] [], tref, .node "S" [] [], .node "List" [] items]
+    let dup := [fnItem "cfg(any())", fnItem "cfg(not(any()))"]
+    let one := [fnItem "none"]
+    implItemSigs (block kitaRef dup) = [⟨.fn, "f", 0, false⟩, ⟨.fn, "f", 0, false⟩] ∧
+    traitItemsCheck tr (block kitaRef dup) = .ok () ∧
+    validateTraitImpls tr [block kitaRef dup] = .ok () ∧
+    validateTraitImpls tr [block kitaRef one, block kitaRef dup] = .ok () ∧
+    validateAll (some tr) [[block kitaRef dup, block kitaRef dup]] = .ok () ∧
+    validateInherentImpls [block (.node "None" [] []) dup] = .ok () ∧
+    validateInherentImpls [block (.node "None" [] []) one, block (.node "None" [] []) dup] = .ok () ∧
+    validateInherentImpls [block (.node "None" [] []) dup, block (.node "None" [] []) dup] = .error .notInOneImpl ∧
+    validateInherentImpls [block (.node "None" [] []) dup, block (.node "None" [] []) one] = .error .notInOneImpl := by
+  decide
+
+example : insertItem [tA, cN 1, fD] (cN 0) = [tA, cN 0, fD] ∧ insertItem [tA, cN 1] fD = [tA, cN 1, fD] ∧
+    [tA, cN 1, fD, tA, cN 0].foldl insertItem [] = [tA, cN 0, fD] := by decide
+
+/-- the hypotheses of the `…_any` theorems on a block that repeats names -/
+example : cleanItems [cN 0, tA, fD] = true ∧ compareTraitItems [cN 0, tA, fD] [tA, cN 1, fD, tA, cN 0] = .ok () ∧
+    cleanItems [tA, cN 1, fD, tA, cN 0] = false ∧ itemMap [tA, cN 1, fD, tA, cN 0] = [tA, cN 0, fD] ∧
+    dropItem .fn "f" [tA, cN 1, fD, tA, cN 0] = [tA, cN 1, tA, cN 0] ∧
+    compareTraitItems [cN 0, tA, fD] [tA, cN 1, tA, cN 0] = .ok () ∧
+    compareInherentItems [cN 0, tA] [tA, cN 1, tA, cN 0] = .ok () ∧
+    compareInherentItems [cN 0, tA, tA] [tA, cN 0] = .error .notInOneImpl := by decide
 end Examples
 
 end DI
